@@ -15,14 +15,20 @@
      Decided(h,r,n)   a decided certificate (aggregated commit, n signers 1..n, round r) for height h
      OnTimeout(h,r)   a timeout event reaching controller.OnTimeout
      Restart          process crash between two calls + Validator.Start on the same database
+     DecidedCrash(h,r,n,k) / LocalMsgsCrash(h,k)
+                      the same call, but the process dies inside it right before its (k+1)-th database write
+                      (k writes are durable), followed by Validator.Start.  A full node's save of a highest
+                      instance is TWO writes (ibftStorage.saveInstance: highest_instance first, then the
+                      historical record), so k = 1 leaves the highest record without the historical one.
 
    An instance is [h, run, prop, dec, round, cc, stop]:
      run  = started locally by StartNewInstance (has a start value), prop = ProposalAcceptedForCurrentRound # nil,
      dec/round = State.Decided / State.Round, stop = forceStop,
      cc[r] = State.CommitContainer.Msgs[r] as the sequence of signer sets, in insertion order
              (LongestUniqueSignersForRoundAndRoot is an order dependent greedy scan; one root per height).
-   A database record is [h, cr, n, inst]: the certificate's round and number of signers (DecidedMessage) and the
-   compacted instance state stored with it.
+   A database record is [h, cr, n, inst, late]: the certificate's round and number of signers (DecidedMessage), the
+   compacted instance state stored with it, and (history only, not part of the real record) whether it was written
+   as a non-highest record, i.e. for a decided message that arrived below c.Height.
 
    Weaken names ONE deviation from the code at a time (attack configs); "none" is the faithful spec.
      compareOwnRoundOnly  UponDecided compares with the commits of the certificate's own round only
@@ -32,7 +38,8 @@
      gateStrict           ShouldProcessDuty with `>` for `>=`
      saveAlwaysHighest    SaveInstance treats every instance as the highest
      loadNoHeight         LoadHighestInstance does not set c.Height
-     noBump               UponDecided does not bump c.Height on a future decided                         *)
+     noBump               UponDecided does not bump c.Height on a future decided
+     histFirst            ibftStorage.saveInstance writes the historical record before the highest record     *)
 EXTENDS Integers, Sequences, FiniteSets, TLC
 
 CONSTANTS MaxH,         \* heights / slots 0..MaxH
@@ -44,7 +51,8 @@ CONSTANTS MaxH,         \* heights / slots 0..MaxH
                         \* TRUE = the proposed repair (also highest when above the stored highest height)
           CertRounds,   \* rounds of the decided certificates delivered ({1, 2}; {1} in lean attack configs)
           Direct,       \* BOOLEAN: include CtlStart
-          Timeouts      \* BOOLEAN: include OnTimeout
+          Timeouts,     \* BOOLEAN: include OnTimeout
+          MidCrash      \* BOOLEAN: include the crash points inside a call (between the database writes)
 
 VARIABLES height,       \* Controller.Height
           stored,       \* Controller.StoredInstances
@@ -52,9 +60,12 @@ VARIABLES height,       \* Controller.Height
           db,           \* [hi |-> record, hist |-> [Heights -> record]]
           restarts,
           top,          \* history: highest height started or learned as decided by this incarnation (-1: none)
+          lc,           \* history: highest height this incarnation learned through a completely processed decided
+                        \* message that was not late (h >= c.Height on arrival), for an instance it did not hold as
+                        \* decided already and that the store did not know as a late record only (-1: none)
           act
-vars == <<height, stored, rs, db, restarts, top, act>>
-view == <<height, stored, rs, db, restarts, top>>
+vars == <<height, stored, rs, db, restarts, top, lc, act>>
+view == <<height, stored, rs, db, restarts, top, lc>>
 
 Heights == 0..MaxH
 Rounds  == 1..2
@@ -64,7 +75,7 @@ MaxI(a, b) == IF a >= b THEN a ELSE b
 
 EmptyCC == [r \in Rounds |-> <<>>]
 NoInst  == [h |-> -1, run |-> FALSE, prop |-> FALSE, dec |-> FALSE, round |-> 0, cc |-> EmptyCC, stop |-> FALSE]
-NoRec   == [h |-> -1, cr |-> 0, n |-> 0, inst |-> NoInst]
+NoRec   == [h |-> -1, cr |-> 0, n |-> 0, inst |-> NoInst, late |-> FALSE]
 
 ----------------------------------------------------------------------------
 (* MsgContainer.LongestUniqueSignersForRoundAndRoot: for every start index, greedily add later messages whose
@@ -92,20 +103,30 @@ StopOthers(st, h) == [k \in 1..Len(st) |-> IF st[k].h # h THEN [st[k] EXCEPT !.s
 Compact(inst) == [inst EXCEPT !.cc = [r \in Rounds |-> IF r < inst.round THEN <<>> ELSE inst.cc[r]]]
 CompactAt(st, h) == LET k == Idx(st, h) IN IF k = 0 THEN st ELSE [st EXCEPT ![k] = Compact(st[k])]
 
-(* Controller.SaveInstance + ibftStorage.saveInstance *)
-Save(d, inst, cr, n, hgt) ==
-    LET rec == [h |-> inst.h, cr |-> cr, n |-> n,
-                inst |-> [Compact(inst) EXCEPT !.run = FALSE, !.stop = FALSE]]
-        isHighest == \/ Weaken = "saveAlwaysHighest" \/ inst.h >= hgt
-                     \/ GapFix /\ d.hi.h < inst.h
-    IN IF FullNode
-       THEN [hi |-> IF isHighest THEN rec ELSE d.hi, hist |-> [d.hist EXCEPT ![inst.h] = rec]]
-       ELSE [hi |-> IF isHighest THEN rec ELSE d.hi, hist |-> d.hist]
+(* Controller.SaveInstance + ibftStorage.saveInstance: the database writes of one save, in order *)
+IsHighest(d, h, hgt) == \/ Weaken = "saveAlwaysHighest" \/ h >= hgt
+                        \/ GapFix /\ d.hi.h < h
+Writes(d, h, hgt) ==
+    IF FullNode
+    THEN IF IsHighest(d, h, hgt)
+         THEN (IF Weaken = "histFirst" THEN <<"hist", "hi">> ELSE <<"hi", "hist">>)   \* SaveHighestAndHistoricalInstance
+         ELSE <<"hist">>                                                             \* SaveInstance
+    ELSE IF IsHighest(d, h, hgt) THEN <<"hi">> ELSE <<>>                              \* light: SaveHighestInstance / nothing
+(* the first k writes of the save are durable (k >= number of writes: the whole save) *)
+SaveK(d, inst, cr, n, hgt, k) ==
+    LET ws  == Writes(d, inst.h, hgt)
+        rec == [h |-> inst.h, cr |-> cr, n |-> n,
+                inst |-> [Compact(inst) EXCEPT !.run = FALSE, !.stop = FALSE],
+                late |-> ~IsHighest(d, inst.h, hgt)]
+        done(w) == \E j \in 1..Len(ws) : j <= k /\ ws[j] = w
+    IN [hi |-> IF done("hi") THEN rec ELSE d.hi,
+        hist |-> IF done("hist") THEN [d.hist EXCEPT ![inst.h] = rec] ELSE d.hist]
+Save(d, inst, cr, n, hgt) == SaveK(d, inst, cr, n, hgt, 2)
 
 ----------------------------------------------------------------------------
 Init == /\ height = 0 /\ stored = <<>> /\ rs = [has |-> FALSE, run |-> -1]
         /\ db = [hi |-> NoRec, hist |-> [h \in Heights |-> NoRec]]
-        /\ restarts = 0 /\ top = -1
+        /\ restarts = 0 /\ top = -1 /\ lc = -1
         /\ act = [name |-> "init", full |-> FullNode]
 
 (* Controller.StartNewInstance(s): "" when it starts the instance, else the reason of the refusal *)
@@ -131,7 +152,7 @@ StartDuty(s) ==
             /\ height' = s /\ stored' = StartedStore(s)
             /\ rs' = [has |-> TRUE, run |-> s]
             /\ top' = MaxI(top, s)
-    /\ UNCHANGED <<db, restarts>>
+    /\ UNCHANGED <<db, restarts, lc>>
 
 CtlStart(s) ==
     /\ Direct
@@ -141,28 +162,49 @@ CtlStart(s) ==
        ELSE /\ act' = [name |-> "CtlStart", slot |-> s, ok |-> TRUE, why |-> ""]
             /\ height' = s /\ stored' = StartedStore(s)
             /\ top' = MaxI(top, s)
-    /\ UNCHANGED <<rs, db, restarts>>
+    /\ UNCHANGED <<rs, db, restarts, lc>>
+
+(* Validator.Start on database d: NewController + LoadHighestInstance *)
+Boot(d) ==
+    /\ restarts < MaxRestarts
+    /\ restarts' = restarts + 1
+    /\ rs' = [has |-> FALSE, run |-> -1]
+    /\ IF d.hi.h = -1
+       THEN height' = 0 /\ stored' = <<>>
+       ELSE /\ height' = IF Weaken = "loadNoHeight" THEN 0 ELSE d.hi.h
+            /\ stored' = <<Compact(d.hi.inst)>>
+    /\ top' = d.hi.h /\ lc' = -1
+    /\ db' = d
 
 (* the seven deciding messages of round 1 for the running instance (they are refused as "future" above
    c.Height, and a force-stopped instance refuses everything) *)
-LocalMsgs(h) ==
-    LET k == Idx(stored, h) IN
+LocalGuard(h) == LET k == Idx(stored, h) IN
     /\ k # 0 /\ h = height
     /\ stored[k].run /\ ~stored[k].stop /\ ~stored[k].prop
-    /\ LET i == stored[k] IN
+LocalNew(h) == LET i == stored[Idx(stored, h)] IN
+    [i EXCEPT !.prop = TRUE, !.dec = TRUE, !.cc[1] = i.cc[1] \o <<{1}, {2}, {3}>>]
+(* the runner saves the decision of its own running instance only *)
+LocalSaves(h) == LET i == stored[Idx(stored, h)] IN i.round = 1 /\ ~i.dec /\ rs.has /\ rs.run = h
+
+LocalMsgs(h) ==
+    /\ LocalGuard(h)
+    /\ LET k == Idx(stored, h)  i == stored[k] IN
        IF i.round > 1           \* every message is of a past round
        THEN /\ act' = [name |-> "LocalMsgs", h |-> h, res |-> "pastround"]
             /\ UNCHANGED <<stored, db, top>>
-       ELSE LET i2 == [i EXCEPT !.prop = TRUE, !.dec = TRUE,
-                                !.cc[1] = i.cc[1] \o <<{1}, {2}, {3}>>]
-                \* the runner saves the decision of its own running instance only
-                sv == ~i.dec /\ rs.has /\ rs.run = h
-            IN /\ stored' = [stored EXCEPT ![k] = i2]
-               /\ db' = IF sv THEN Save(db, i2, 1, 3, height) ELSE db
-               /\ top' = MaxI(top, h)
-               /\ act' = [name |-> "LocalMsgs", h |-> h,
-                          res |-> IF i.dec THEN "already" ELSE IF sv THEN "decided-saved" ELSE "decided-nosave"]
-    /\ UNCHANGED <<height, rs, restarts>>
+       ELSE /\ stored' = [stored EXCEPT ![k] = LocalNew(h)]
+            /\ db' = IF LocalSaves(h) THEN Save(db, LocalNew(h), 1, 3, height) ELSE db
+            /\ top' = MaxI(top, h)
+            /\ act' = [name |-> "LocalMsgs", h |-> h,
+                       res |-> IF i.dec THEN "already" ELSE IF LocalSaves(h) THEN "decided-saved" ELSE "decided-nosave"]
+    /\ UNCHANGED <<height, rs, restarts, lc>>
+
+(* ... and the process dies right before the (k+1)-th database write of that call *)
+LocalMsgsCrash(h, k) ==
+    /\ MidCrash /\ LocalGuard(h) /\ LocalSaves(h)
+    /\ k < Len(Writes(db, h, height))
+    /\ Boot(SaveK(db, LocalNew(h), 1, 3, height, k))
+    /\ act' = [name |-> "LocalMsgsCrash", h |-> h, k |-> k]
 
 Commit4(h) ==
     LET k == Idx(stored, h) IN
@@ -171,11 +213,11 @@ Commit4(h) ==
     /\ \A j \in 1..Len(stored[k].cc[1]) : stored[k].cc[1][j] # {4}
     /\ stored' = [stored EXCEPT ![k].cc[1] = Append(@, {4})]
     /\ act' = [name |-> "Commit4", h |-> h]
-    /\ UNCHANGED <<height, rs, db, restarts, top>>
+    /\ UNCHANGED <<height, rs, db, restarts, top, lc>>
 
 (* Controller.UponDecided for a valid certificate, then BaseRunner.compactInstanceIfNeeded.
-   (When the certificate decides the runner's own instance the runner saves it a second time: same record.) *)
-Decided(h, r, n) ==
+   When the certificate decides the runner's own running instance the runner saves it a second time (same record). *)
+DecidedCalc(h, r, n) ==
     LET k    == Idx(stored, h)
         disk == k = 0 /\ FullNode /\ db.hist[h].h = h       \* InstanceForHeight: a transient copy from storage
         more == IF k # 0 THEN n > Cmp(stored[k], r) ELSE n > Cmp(db.hist[h].inst, r)
@@ -188,14 +230,31 @@ Decided(h, r, n) ==
                 ELSE IF more THEN [stored EXCEPT ![k].cc[r] = Append(@, Cert(n))] ELSE stored
         save == IF k # 0 /\ stored[k].dec THEN more ELSE IF disk THEN more ELSE TRUE
         k1   == Idx(st1, h)
-        sv   == save /\ k1 # 0                               \* only an instance held in memory is saved
-        bump == h > height /\ Weaken # "noBump"
-    IN /\ db' = IF sv THEN Save(db, st1[k1], r, n, height) ELSE db
-       /\ height' = IF bump THEN h ELSE height
-       /\ stored' = CompactAt(st1, h)
+        prev == (k # 0 /\ stored[k].dec) \/ disk             \* prevDecided
+    IN [st1 |-> st1, k1 |-> k1, disk |-> disk, memdec |-> k # 0 /\ stored[k].dec,
+        sv |-> save /\ k1 # 0,                               \* only an instance held in memory is saved
+        resave |-> ~prev /\ rs.has /\ rs.run = h /\ k1 # 0,  \* baseConsensusMsgProcessing saves it again
+        bump |-> h > height /\ Weaken # "noBump"]
+
+Decided(h, r, n) ==
+    LET c == DecidedCalc(h, r, n) IN
+       /\ db' = IF c.sv THEN Save(db, c.st1[c.k1], r, n, height) ELSE db
+       /\ height' = IF c.bump THEN h ELSE height
+       /\ stored' = CompactAt(c.st1, h)
        /\ top' = MaxI(top, h)
-       /\ act' = [name |-> "Decided", h |-> h, r |-> r, n |-> n, saved |-> sv, bumped |-> bump]
+       \* learned from this message: timely, the node did not hold the instance as decided in memory already
+       \* (then it had learned it before), and the store did not know it as a late record only
+       /\ lc' = IF h >= height /\ ~c.memdec /\ ~(c.disk /\ db.hist[h].late) THEN MaxI(lc, h) ELSE lc
+       /\ act' = [name |-> "Decided", h |-> h, r |-> r, n |-> n, saved |-> c.sv, bumped |-> c.bump]
        /\ UNCHANGED <<rs, restarts>>
+
+DecidedCrash(h, r, n, k) ==
+    LET c  == DecidedCalc(h, r, n)
+        w1 == Len(Writes(db, h, height))
+    IN /\ MidCrash /\ c.sv
+       /\ k < w1 + (IF c.resave THEN w1 ELSE 0)
+       /\ Boot(SaveK(db, c.st1[c.k1], r, n, height, k))
+       /\ act' = [name |-> "DecidedCrash", h |-> h, r |-> r, n |-> n, k |-> k]
 
 (* Controller.OnTimeout; live = it reaches Instance.UponRoundTimeout of an instance that still runs *)
 OnTimeout(h, r) ==
@@ -205,26 +264,18 @@ OnTimeout(h, r) ==
        /\ live => stored[k].round < 2
        /\ stored' = IF live THEN [stored EXCEPT ![k].round = @ + 1, ![k].prop = FALSE] ELSE stored
        /\ act' = [name |-> "OnTimeout", h |-> h, r |-> r, live |-> live]
-       /\ UNCHANGED <<height, rs, db, restarts, top>>
+       /\ UNCHANGED <<height, rs, db, restarts, top, lc>>
 
-(* crash between two calls, then Validator.Start: NewController + LoadHighestInstance on the same db *)
-Restart ==
-    /\ restarts < MaxRestarts
-    /\ restarts' = restarts + 1
-    /\ rs' = [has |-> FALSE, run |-> -1]
-    /\ IF db.hi.h = -1
-       THEN height' = 0 /\ stored' = <<>>
-       ELSE /\ height' = IF Weaken = "loadNoHeight" THEN 0 ELSE db.hi.h
-            /\ stored' = <<Compact(db.hi.inst)>>
-    /\ top' = db.hi.h
-    /\ act' = [name |-> "Restart"]
-    /\ UNCHANGED db
+(* crash between two calls, then Validator.Start *)
+Restart == Boot(db) /\ act' = [name |-> "Restart"]
 
 Next == \/ \E s \in Heights : StartDuty(s) \/ CtlStart(s)
         \/ \E h \in Heights : LocalMsgs(h) \/ Commit4(h)
         \/ \E h \in Heights, r \in CertRounds, n \in {3, 4} : Decided(h, r, n)
         \/ \E h \in Heights, r \in Rounds : OnTimeout(h, r)
         \/ Restart
+        \/ \E h \in Heights, k \in 0..1 : \/ LocalMsgsCrash(h, k)
+                                          \/ \E r \in CertRounds, n \in {3, 4} : DecidedCrash(h, r, n, k)
 Spec == Init /\ [][Next]_vars
 
 ----------------------------------------------------------------------------
@@ -243,7 +294,8 @@ NoRerun == [][(act'.name = "StartDuty" /\ act'.ok)
 (* the controller by itself: no instance below c.Height and none for a height it holds an instance of *)
 NoRerunCtl == [][(act'.name \in {"CtlStart", "StartDuty"} /\ act'.ok)
                     => act'.slot >= height /\ Idx(stored, act'.slot) = 0]_vars
-HeightMonotone == [][act'.name # "Restart" => height' >= height]_vars
+IsBoot(a) == a.name \in {"Restart", "DecidedCrash", "LocalMsgsCrash"}
+HeightMonotone == [][~IsBoot(act') => height' >= height]_vars
 TopIsHeight == top = -1 \/ top = height
 
 (* the highest_instance record: replaced only by a greater height, or at the same height by a certificate
@@ -260,16 +312,26 @@ HistMonotoneNZ  == [][\A h \in Heights \ {0} : ~HistShrinks(h)]_vars
    and the decision of the fresh instance overwrites the older record.  This is the only way a record shrinks. *)
 HistMonotoneExceptRerun ==
     [][\A h \in Heights : HistShrinks(h) =>
-          /\ restarts > 0 /\ act'.name \in {"LocalMsgs", "Decided"} /\ act'.h = h /\ db'.hist[h].h = h
+          /\ restarts > 0 /\ act'.name \in {"LocalMsgs", "Decided", "LocalMsgsCrash", "DecidedCrash"}
+          /\ act'.h = h /\ db'.hist[h].h = h
           /\ LET k == Idx(stored, h) IN k # 0 /\ stored[k].run /\ ~stored[k].dec]_vars
 StorageShape    == /\ db.hi.h # -1 => db.hi.inst.dec /\ db.hi.n >= 3
                    /\ \A h \in Heights : db.hist[h].h \in {-1, h}
                    /\ ~FullNode => \A h \in Heights : db.hist[h].h = -1
-                   /\ FullNode /\ db.hi.h # -1 => db.hist[db.hi.h].h = db.hi.h
+                   \* a crash between the two writes of a full node leaves at most the highest record alone
+                   /\ FullNode /\ db.hi.h # -1 /\ ~MidCrash => db.hist[db.hi.h].h = db.hi.h
+                   /\ db.hi.late = FALSE
+(* crash consistency of the two writes: a historical record that was written as a highest instance never gets
+   ahead of the highest_instance record *)
+HistBehindHighest == \A h \in Heights : db.hist[h].h = h /\ ~db.hist[h].late => db.hi.h >= h
+
+(* whatever a completely processed, timely decided message taught this incarnation survives its death: the next
+   incarnation starts from a stored highest height that is not below it *)
+RestartCoversLearned == [][IsBoot(act') => lc <= db'.hi.h]_vars
 
 (* after Restart the controller resumes with the stored highest height and refuses duties up to it *)
 DutyWouldStart(s) == ~GateRefuses(s) /\ CtlRefusal(s) = ""
-RestartResumes == (act.name = "Restart" /\ db.hi.h # -1)
+RestartResumes == (IsBoot(act) /\ db.hi.h # -1)
                       => /\ height = db.hi.h
                          /\ \A s \in 0..db.hi.h : ~DutyWouldStart(s)
 
@@ -279,6 +341,6 @@ HighestStrict == [][db.hi.h # -1 /\ db'.hi.h = db.hi.h =>
                        \/ (db'.hi.cr = db.hi.cr /\ db'.hi.n = db.hi.n)
                        \/ db'.hi.n > db.hi.n]_vars
 (* every decided instance held in memory at the crash is covered by the stored highest height *)
-RestartCoversKnown == [][act'.name = "Restart" =>
+RestartCoversKnown == [][IsBoot(act') =>
                             \A k \in 1..Len(stored) : stored[k].dec => stored[k].h <= height']_vars
 =============================================================================
